@@ -24,8 +24,8 @@ var stmtPerExecution = map[string]string{
 	"DB":           "rebound to the deriving handle by the caller of clone",
 	"BuildClauses": "set and reset inside one Execute",
 	"CurDestIndex": "set and reset inside one hook dispatch",
-	"SQL":          "copied only when non-empty (raw SQL), checked separately",
-	"Vars":         "copied together with SQL when raw SQL is present",
+	"SQL":          "copied only when non-empty (raw SQL), checked by checkCloneSQL",
+	"Vars":         "copied together with SQL when raw SQL is present, checked by checkCloneSQL",
 	"Settings":     "sync.Map copied entry by entry with Range/Store",
 }
 
@@ -50,7 +50,9 @@ func exportedDBMethods(p *Program) []*types.Func {
 func checkC06(c *Ctx) {
 	p := c.P
 	checkC06Recv(c, c.Rule("C06.recv", "exported *DB methods never write through their receiver (stores, map updates, element stores, mutating callees)", 55))
-	checkC06Clone(c, c.Rule("C06.clone", "Statement.clone copies every per-chain field; maps fresh+range, extended slices exact-length copies", 20), nil)
+	rcl := c.Rule("C06.clone", "Statement.clone copies every per-chain field; maps fresh+range, extended slices exact-length copies; raw SQL/Vars whenever present", 20)
+	checkC06Clone(c, rcl, nil)
+	checkCloneSQL(c, rcl)
 	checkC06Instance(c, c.Rule("C06.instance", "getInstance keeps ConnPool/Context/SkipHooks and a fresh Clauses map; Session mutates the statement only after cloning it", 8))
 	checkC06MergeAlias(c, c.Rule("C06.merge-alias", "MergeClause never appends onto / stores into a slice not created in that call", 16))
 	checkC06BuildPure(c, c.Rule("C06.build-pure", "Build/NegationBuild/buildExprs never store into a slice reachable from receiver or parameters", 30))
@@ -235,11 +237,21 @@ func checkC06Clone(c *Ctx, r *Rule, only map[string]bool) {
 			if cl, ok := unparen(val).(*ast.CompositeLit); ok && val != nil && len(cl.Elts) == 0 {
 				fresh = true
 			}
-			copied := hasRangeCopy(info, clone.Body, src, newVar+"."+name)
-			r.Check(fresh && copied, clone.Name(), desc, lit.Pos(), "fresh map filled by a range over "+src, "map field "+name+" is not deep-copied by clone (need a fresh map filled from "+src+"): derived chains share and mutate the parent's map")
+			cn := rangeCopyNode(info, clone.Body, src, newVar+"."+name)
+			copied := cn != nil
+			why := ""
+			if copied {
+				copied, why = copyUnconditional(info, clone.Body, cn, recv, name)
+			}
+			r.Check(fresh && copied, clone.Name(), desc, lit.Pos(), "fresh map filled by a range over "+src, "map field "+name+" is not deep-copied by clone on every derivation (need a fresh map filled from "+src+"): derived chains share and mutate the parent's map, or lose the entries "+why)
 		case isSlice && extended[name] != "":
-			okc := hasSliceCopy(info, clone.Body, src, newVar+"."+name)
-			r.Check(okc, clone.Name(), desc, lit.Pos(), "exact-length copy (extended in place by "+extended[name]+")", "slice field "+name+" is extended in place by "+extended[name]+" but clone does not make an exact-length copy: a derived chain can overwrite a sibling's elements")
+			cn := sliceCopyNode(info, clone.Body, src, newVar+"."+name)
+			okc := cn != nil
+			why := ""
+			if okc {
+				okc, why = copyUnconditional(info, clone.Body, cn, recv, name)
+			}
+			r.Check(okc, clone.Name(), desc, lit.Pos(), "exact-length copy (extended in place by "+extended[name]+")", "slice field "+name+" is extended in place by "+extended[name]+" but clone does not make an exact-length copy on every derivation: a derived chain can overwrite a sibling's elements or loses them "+why)
 		default:
 			okc := val != nil && canon(info, val) == src
 			if !okc && newVar != "" {
@@ -248,6 +260,38 @@ func checkC06Clone(c *Ctx, r *Rule, only map[string]bool) {
 			}
 			r.Check(okc, clone.Name(), desc, lit.Pos(), "copied from "+src, "Statement."+name+" is not carried over by clone: the value is lost by any Session/WithContext/chain derivation")
 		}
+	}
+}
+
+// checkCloneSQL: raw SQL text and its bound values travel with the statement whenever they are present.
+func checkCloneSQL(c *Ctx, r *Rule) {
+	p := c.P
+	clone := p.MethodDecl(pkgGorm, "Statement", "clone")
+	info := clone.Pkg.TypesInfo
+	recv := recvName(clone)
+	var sqlCopy, varsCopy ast.Node
+	ast.Inspect(clone.Body, func(n ast.Node) bool {
+		switch x := n.(type) {
+		case *ast.CallExpr:
+			if sel, ok := x.Fun.(*ast.SelectorExpr); ok && sel.Sel.Name == "WriteString" && strings.HasSuffix(canon(info, sel.X), ".SQL") && len(x.Args) == 1 && canon(info, x.Args[0]) == recv+".SQL.String()" {
+				sqlCopy = x
+			}
+			if id, ok := x.Fun.(*ast.Ident); ok && (id.Name == "append" || id.Name == "copy") && len(x.Args) == 2 && strings.HasSuffix(canon(info, x.Args[0]), ".Vars") && canon(info, x.Args[1]) == recv+".Vars" && !strings.HasPrefix(canon(info, x.Args[0]), recv+".") {
+				varsCopy = x
+			}
+		}
+		return true
+	})
+	for _, it := range []struct {
+		name string
+		node ast.Node
+	}{{"SQL", sqlCopy}, {"Vars", varsCopy}} {
+		okc := it.node != nil
+		why := "no copy found"
+		if okc {
+			okc, why = copyUnconditional(info, clone.Body, it.node, recv, "SQL", "Vars")
+		}
+		r.Check(okc, clone.Name(), "field "+it.name+" (raw SQL)", clone.Body.Pos(), "copied whenever raw SQL is present", "Statement."+it.name+" of a raw statement is not carried over by clone on every derivation: Raw(..).Session/WithContext, or a raw sub-query, loses its text or bound values ("+why+")")
 	}
 }
 
@@ -264,6 +308,11 @@ func containsNode(root ast.Node, target ast.Node) bool {
 
 // hasRangeCopy: for k, v := range <src> { <dst>[k] = v }
 func hasRangeCopy(info *types.Info, body ast.Node, src, dst string) bool {
+	return rangeCopyNode(info, body, src, dst) != nil
+}
+
+func rangeCopyNode(info *types.Info, body ast.Node, src, dst string) ast.Node {
+	var node ast.Node
 	found := false
 	ast.Inspect(body, func(n ast.Node) bool {
 		rs, ok := n.(*ast.RangeStmt)
@@ -279,16 +328,64 @@ func hasRangeCopy(info *types.Info, body ast.Node, src, dst string) bool {
 			if as, ok := s.(*ast.AssignStmt); ok && len(as.Lhs) == 1 && len(as.Rhs) == 1 {
 				if ix, ok := as.Lhs[0].(*ast.IndexExpr); ok && canon(info, ix.X) == dst && canon(info, ix.Index) == k.Name && canon(info, as.Rhs[0]) == v.Name {
 					found = true
+					node = rs
 				}
 			}
 		}
 		return true
 	})
-	return found
+	if !found {
+		return nil
+	}
+	return node
+}
+
+// copyUnconditional: every `if` enclosing node inside body tests only the source itself (emptiness /
+// nil-ness of a receiver field named in allowed); a copy that also depends on anything else - a mode
+// flag, another field - is lost on some derivations.
+func copyUnconditional(info *types.Info, body ast.Node, node ast.Node, recv string, allowed ...string) (bool, string) {
+	parents := parentMap(body)
+	for cur := node; cur != nil; cur = parents[cur] {
+		ifs, ok := parents[cur].(*ast.IfStmt)
+		if !ok || cur == ast.Node(ifs.Cond) || cur == ifs.Init {
+			continue
+		}
+		bad := ""
+		ast.Inspect(ifs.Cond, func(x ast.Node) bool {
+			switch e := x.(type) {
+			case *ast.SelectorExpr:
+				pth := canon(info, e)
+				ok := false
+				for _, a := range allowed {
+					if pth == recv+"."+a || strings.HasPrefix(pth, recv+"."+a+".") {
+						ok = true
+					}
+				}
+				if !ok {
+					bad = pth
+				}
+				return false
+			case *ast.Ident:
+				if _, isVar := info.Uses[e].(*types.Var); isVar && e.Name != recv {
+					bad = e.Name
+				}
+			}
+			return true
+		})
+		if bad != "" {
+			return false, "guarded by " + exprStr(ifs.Cond) + " (mentions " + bad + ")"
+		}
+	}
+	return true, ""
 }
 
 // hasSliceCopy: <dst> = make(T, len(<src>)); copy(<dst>, <src>)   (or append onto a fresh empty make)
 func hasSliceCopy(info *types.Info, body ast.Node, src, dst string) bool {
+	return sliceCopyNode(info, body, src, dst) != nil
+}
+
+func sliceCopyNode(info *types.Info, body ast.Node, src, dst string) ast.Node {
+	var node ast.Node
 	madeExact, copied := false, false
 	ast.Inspect(body, func(n ast.Node) bool {
 		switch n := n.(type) {
@@ -306,12 +403,16 @@ func hasSliceCopy(info *types.Info, body ast.Node, src, dst string) bool {
 			if id, ok := n.Fun.(*ast.Ident); ok && id.Name == "copy" && len(n.Args) == 2 {
 				if canon(info, n.Args[0]) == dst && canon(info, n.Args[1]) == src {
 					copied = true
+					node = n
 				}
 			}
 		}
 		return true
 	})
-	return madeExact && copied
+	if madeExact && copied {
+		return node
+	}
+	return nil
 }
 
 func hasAssign(info *types.Info, body ast.Node, dst, src string) bool {
